@@ -7,6 +7,7 @@ import (
 
 	"pgregory.net/rapid"
 
+	pfs "github.com/xakep666/ps3netsrv-go/pkg/fs"
 	"github.com/xakep666/ps3netsrv-go/verif/hx"
 	"github.com/xakep666/ps3netsrv-go/verif/isoread"
 )
@@ -172,4 +173,46 @@ func runC08(c isoCase, st *hx.Stats) error {
 func TestC08Valid(t *testing.T) {
 	st := hx.NewStats("C08", "valid")
 	hx.RunProp(t, st, genC08, runC08, hx.PropOpts{WriteAhead: true})
+}
+
+// ---- C08: more directories than a path table can number -------------------------------------------------------
+//
+// Path tables name a directory's parent by a 16-bit number (directories are numbered from 1): a tree with more
+// than 65535 directories cannot have complete path tables. Creation must fail - a volume whose tables were cut short
+// is not valid. (Synthetic filesystem: no disk. On a tree that fails to refuse, building takes about an hour because
+// it is quadratic in the number of directories; the case then fails on the table size.)
+func TestC08TooManyDirs(t *testing.T) {
+	st := hx.NewStats("C08", "too-many-dirs")
+	st.MarkExhaustive("one tree of 65 794 directories (257 x 256) through the library: refused, or path tables complete")
+	cases := func(yield func(int) bool) { yield(257) }
+	hx.RunCases(t, st, cases, func(n int, st *hx.Stats) error {
+		root := hx.Dir("")
+		for i := 0; i < n; i++ {
+			d := hx.Dir(fmt.Sprintf("A%03d", i))
+			for j := 0; j < 256; j++ {
+				d.Children = append(d.Children, hx.Dir(fmt.Sprintf("B%03d", j)))
+			}
+			root.Children = append(root.Children, d)
+		}
+		sfs := hx.NewSynthFs(hx.Dir("", &hx.Node{Name: "t", Kind: "dir", Children: root.Children}))
+		viso, err := pfs.NewVirtualISO(sfs, "/t", false)
+		st.NT("257x256")
+		st.Sample(map[string]any{"directories": 1 + n + n*256})
+		if err != nil {
+			st.Label("refused: " + head(err.Error(), 80))
+			return nil
+		}
+		defer viso.Close()
+		s, _ := viso.Stat()
+		v, perr := isoread.Parse(viso, s.Size())
+		if perr != nil {
+			return hx.Failf("image-parse", "image of %d directories: %v", 1+n+n*256, perr)
+		}
+		for _, h := range []*isoread.Hier{v.Primary, v.Joliet} {
+			if len(h.PTL) != len(h.Dirs) || len(h.PTM) != len(h.Dirs) {
+				return hx.Failf("iso-path-table", "image of %d directories was created, its path tables have %d / %d entries for %d directories", 1+n+n*256, len(h.PTL), len(h.PTM), len(h.Dirs))
+			}
+		}
+		return nil
+	}, hx.PropOpts{})
 }
